@@ -18,7 +18,7 @@ import (
 func init() {
 	fw.Register(&fw.Prop{
 		ID: "C12",
-		Rule: "inputs: (1) exhaustive table orphans 1–4 × widows 1–4 × paragraph length 1–8 × room 0–8 lines after a leading block; (2) exhaustive table of break-after × break-before value pairs (10 × 10) in four nesting variants at a natural page end; (3) random flows of 3–12 blocks (fixed-height empty blocks, Ahem paragraphs of 1–9 one-word lines with explicit px line-height, one level of nesting; zero vertical margins) with break-before/after/inside, orphans, widows, page names, and 0–6 @page rules (:first/:left/:right/:blank/named/:nth(), author and user origin, !important) setting integer size, margins, padding, page counters and an @bottom-center counter box. " +
+		Rule: "inputs: (1) exhaustive table orphans 1–4 × widows 1–4 × paragraph length 1–8 × room 0–8 lines after a leading block; (2) exhaustive table of break-after × break-before value pairs (10 × 10) in four nesting variants at a natural page end; (3) random flows of 2–10 items, up to ~25 blocks (fixed-height empty blocks, Ahem paragraphs of 1–9 one-word lines with explicit px line-height, one level of nesting; zero vertical margins; 3% of the documents on pages lower than a line, 4% on A4 pages) with break-before/after/inside, orphans, widows, page names, and 0–6 @page rules (:first/:left/:right/:blank/named/:nth(), author and user origin, !important) setting integer size, margins, padding, page counters and an @bottom-center counter box. " +
 			"A case is non-trivial when the laid-out document has at least two pages and at least one page end (forced or unforced) was decided by the break monitor; distinct = distinct input.",
 		N: func(tier string) int {
 			if tier == "thorough" {
